@@ -606,6 +606,25 @@ def rule_call_signature(check):
                 ok = True
                 l_ = hir.local_of(hir.peel_transparent(m_["scrut"]))
                 tested = l_[0] if l_ else tested
+    field_of_param = False
+    if not ok:
+        # `match &<callee description> { Some(S { method, .. }) if *method == "apply" => Yes, _ => No }`: the name
+        # travels in a struct handed in by the callers
+        for m_ in [n for n in hir.walk(g.body) if n.get("k") == "Match" and not n.get("source", "").startswith(("ForLoop", "TryDesugar"))]:
+            arms = m_.get("arms", [])
+            if len(arms) != 2 or "guard" not in arms[0] or "guard" in arms[1]:
+                continue
+            vals = [(_ctor_name(hir.peel(a_["body"])) or "").split("::")[-1] for a_ in arms]
+            at = gate.atom(g, {"t": "bool", "e": arms[0]["guard"], "v": True})
+            wild = str(hir.pat_variant(arms[1]["pat"])) == "_"
+            if vals == ["Yes", "No"] and wild and at[0] == "eq" and at[3] is True and (_is_apply_operand(prog, at[1]) or _is_apply_operand(prog, at[2])):
+                other = at[2] if _is_apply_operand(prog, at[1]) else at[1]
+                bound = {b_["name"] for b_ in hir.pat_bindings(arms[0]["pat"])}
+                sl_ = hir.local_of(hir.peel_transparent(m_["scrut"]))
+                sb_ = g.bindings().get(sl_[0]) if sl_ else None
+                if isinstance(other, str) and other.split("#")[0].lstrip("*") in bound and sb_ is not None and sb_["origin"][0] == "param":
+                    ok = True
+                    field_of_param = True
     pn = [g.bindings()[tested]] if tested in g.bindings() and g.bindings()[tested]["origin"][0] == "let" else [b for b in g.bindings().values() if b["name"] == "prop_name"]
     dflt = False
     if pn and pn[0]["origin"][1] is not None:
@@ -620,7 +639,7 @@ def rule_call_signature(check):
             at = gate.atom(g, {"t": "bool", "e": n["cond"], "v": True})
             if at[0] == "eq" and (_is_apply_operand(prog, at[1]) or _is_apply_operand(prog, at[2])):
                 cmp_on_param = any(isinstance(x, str) and x.split("#")[0] in {b["name"] for b in prm} for x in (at[1], at[2]))
-        dflt = cmp_on_param
+        dflt = cmp_on_param or field_of_param
     check.expect(ok and dflt, R, R + "/expand-arrays", hir.loc(g.rec), "array arguments are expanded iff the call goes through .apply (default .call)", "array expansion is not tied to `.apply` (default `.call`): the hook's argument list does not match the call")
     # ... and nowhere else: every other site hands on its own parameter or says No
     yes_sites = _enum_value_sites(prog, "ExpandArrays::Yes")
@@ -744,7 +763,19 @@ def rule_call_signature(check):
         none_ = bool(os_) and all(r[0] == "ctor" and r[1].split("::")[-1] == "None" for r, p_ in os_)
         check.expect(none_, R, R + "/bare-callee-kept", hir.loc(n), "bare call: no callee replacement is requested", "the bare-call path asks for the callee to be replaced (%s): `f(x)` is no longer a call of the identifier" % sorted(origin_str(o) for o in os_))
     # the parameter of replace_call_callee_and_args that carries the optional callee temporary (whatever it is called)
-    cal_names = {hir.pat_bindings(p_["pat"])[0]["name"] for p_ in rc.rec.get("params", []) if "Option<swc_ecma_ast::Expr>" in (p_.get("ty") or "") and hir.pat_bindings(p_["pat"])} or {"ident_callee_expr"}
+    def _carries_callee(ty_):
+        """Option<Expr>, or Option<S> for a crate struct S that has an Expr field (the callee with what goes with it)"""
+        if "Option<swc_ecma_ast::Expr>" in ty_:
+            return True
+        m_ = re.search(r"Option<([\w:]+)", ty_)
+        if not m_:
+            return False
+        try:
+            adt_ = prog.adt(m_.group(1).split("::")[-1])
+        except Exception:
+            return False
+        return any("swc_ecma_ast::Expr" == re.sub(r"^&(mut )?", "", (f_.get("ty") or "")).replace("std::boxed::Box<", "").rstrip(">") for v_ in (adt_.get("variants") or []) for f_ in (v_.get("fields") or []))
+    cal_names = {hir.pat_bindings(p_["pat"])[0]["name"] for p_ in rc.rec.get("params", []) if _carries_callee(p_.get("ty") or "") and hir.pat_bindings(p_["pat"])} or {"ident_callee_expr"}
     writers = []
     for f_ in prog.user_fns:
         for n in f_.nodes():
